@@ -212,7 +212,7 @@ def oracle_path(case):
             tot += float(g(clf.predict_proba(Xv[blk]), Ab)) * len(Xv[blk])
             j += batch_size
         tot /= len(Xv)
-        if batch_size != bsize:
+        if min(int(batch_size), len(Xv)) != min(int(bsize), len(Xv)):  # blocks larger than the data are the whole data either way
             val["bad"] = f"validation score computed with blocks of {batch_size}, batch size is {bsize}"
         elif not (abs(tot - res[0]) <= 1e-9 * max(1.0, abs(tot)) or (np.isnan(tot) and np.isnan(res[0]))):
             val["bad"] = f"validation score {res[0]!r} != block-wise score {tot!r} over sequential aligned blocks"
